@@ -255,7 +255,9 @@ def replay(job, rec):
             continue
         for name, msg in problems:
             mism.append(Mismatch(prop_id, None, "%s %s" % (name, msg), {"partition": k},
-                                 tags={"prop": name, "raises_under_transform": True}))
+                                 tags={"prop": name, "raises_under_transform": True,
+                                       "xf_rows": min(len(tr["rx"]), 1),
+                                       "xf_cols": min(len(tr["cx"]), 1)}))
         st["traces"].append(tr)
         st["meta"][tid] = {"rec": rec, "partition": k}
         evals += len(tr["ev"])
